@@ -1009,8 +1009,30 @@ fn flatten_data(e: &Expr, lits: &mut Vec<String>, f: &SrcFile) -> String {
             out.push(']');
             out
         }
+        Expr::Binary(_) | Expr::Cast(_) => {
+            // literal-only arithmetic inside a data constant (e.g. `67108845 << 1`): evaluated like rule R5
+            match const_eval(e) {
+                Some(v) => {
+                    lits.push(format!("{}", v));
+                    "#".to_string()
+                }
+                None => die("R13: non-literal arithmetic in constant data"),
+            }
+        }
         Expr::Call(c) => {
             let name = norm_sel(f.slice(c.func.span()));
+            // `u32x8::splat_const::<N>()` / `u64x4::splat_const::<N>()`: N in every lane
+            if c.args.is_empty() && name.contains("splat_const::<") {
+                let n = name.split("::<").nth(1).unwrap_or("").trim_end_matches('>').trim_end_matches("()").to_string();
+                let lanes = if name.starts_with("u32x8") { 8 } else if name.starts_with("u64x4") { 4 } else { die("R13: splat_const of unknown vector type") };
+                if n.parse::<u128>().is_err() {
+                    die("R13: splat_const with a non-literal argument");
+                }
+                for _ in 0..lanes {
+                    lits.push(n.clone());
+                }
+                return format!("{}()", name.split("::<").next().unwrap());
+            }
             let args: Vec<String> = c.args.iter().map(|x| flatten_data(x, lits, f)).collect();
             format!("{}({})", name, args.join(","))
         }
